@@ -206,6 +206,16 @@ func (v *Verifier) evalSpec(env *Env, e SExpr) Val {
 		for _, b := range x.Vars {
 			t := v.resolveType(env.pkg, b.Type)
 			srt := scalarSort(t)
+			if kindOf(t) == KSlice {
+				// a slice-typed bound variable is three integers (backing array, offset, length); cap == len
+				c.fresh++
+				base := fmt.Sprintf("%s!q%d", b.Name, c.fresh)
+				sv := Val{K: KSlice, T: t, A: sym(base + ".ref"), Off: sym(base + ".off"), Len: sym(base + ".len"), Cap: sym(base + ".len")}
+				binders = append(binders, "("+sv.A+" Int)", "("+sv.Off+" Int)", "("+sv.Len+" Int)")
+				ranges = append(ranges, and(le("0", sv.A), le("0", sv.Off), le("0", sv.Len)))
+				ne.vars[b.Name] = sv
+				continue
+			}
 			if k := kindOf(t); k != KInt && k != KBool && k != KRef && k != KStr {
 				encFail("spec: quantified variable %s of unsupported type %s", b.Name, b.Type)
 			}
